@@ -751,22 +751,24 @@ def _width_extra(pid):
         rows = _re.findall(r'\("([^"]*)"%string, (\d+)\)', m.group(1)) if m else []
         narrow = [(n, int(w)) for n, w in rows if int(w) < 64]
         cov.setdefault('extra', {})['counter_widths'] = {'declarations': len(rows), 'narrower_than_64_bits': ['%s: %d' % x for x in narrow]}
-        if not narrow:
+        if not narrow and tier != 'thorough':
             return []
-        bits = min([w for _, w in narrow if w > 0] or [24])
+        # thorough tier: one PLAIN and one VEGAS iteration with 2^31 + 1000 calls even when every counter is wide (arguments that pass
+        # through a 32-bit type anywhere would be truncated)
+        bits = min([w for _, w in narrow if w > 0] or [24]) if narrow else 31
         out_dir = os.path.join(tie.BUILD, 'tmp'); os.makedirs(out_dir, exist_ok=True)
         exe = os.path.join(out_dir, 'bigcount_%d' % os.getpid())
         rc, log_ = tie.sh(['g++', '-std=c++11', '-O2', '-I%s/include' % tie.REPO, os.path.join(tie.VERIF, 'harness', 'cxx', 'bigcount.cpp'), '-o', exe], timeout=600)
         if rc != 0:
             return [viol('the search for a count that a narrowed counter loses could not be built: ' + log_[-300:], [], tie=True)]
         try:
-            p = subprocess.run(['timeout', '1500', exe, str(bits)], stdout=subprocess.PIPE, stderr=subprocess.PIPE, universal_newlines=True)
+            p = subprocess.run(['timeout', '1500', exe, str(bits)] + ([] if narrow else ['args']), stdout=subprocess.PIPE, stderr=subprocess.PIPE, universal_newlines=True)
         finally:
             if os.path.exists(exe): os.remove(exe)
         out = []
         for l in p.stdout.split('\n'):
             if l.startswith('FAIL '):
-                out.append(viol('%s is declared with %d bits: %s' % (', '.join(n for n, w in narrow if w == bits), bits, l[5:]), [], {'bigcount_bits': bits}))
+                out.append(viol(('%s is declared with %d bits: %s' % (', '.join(n for n, w in narrow if w == bits), bits, l[5:])) if narrow else l[5:], [], {'bigcount_bits': bits}))
         cov['extra']['counter_widths']['search'] = p.stdout.strip()[-300:]
         return out
     return f
